@@ -25,7 +25,7 @@ var (
 )
 
 const (
-	vStepLimit = 30 * time.Second // a step's outputs must show up within this time
+	vStepLimit = 20 * time.Second // a step's outputs must show up within this time
 	vHangLimit = 25 * time.Second // free run: no progress for this long = no termination
 )
 
@@ -46,8 +46,7 @@ func (w *vWorld) startSession(target int, finderTimer bool, notify bool) bool {
 	}
 	var c chan error
 	if notify {
-		c = make(chan error, 4)
-		w.notifyC = c
+		c = w.notifyC
 	}
 	w.nsess++
 	return w.deliverTracked(&message.SyncStart{PeerID: w.peers[0], TargetNo: uint64(target), NotifyC: c})
@@ -56,6 +55,12 @@ func (w *vWorld) startSession(target int, finderTimer bool, notify bool) bool {
 // deliverTracked delivers and does the end-of-session bookkeeping (outstanding requests become stale)
 func (w *vWorld) deliverTracked(m interface{}) bool {
 	was := w.sy.isRunning
+	seq0 := w.sy.Seq
+	defer func() {
+		if _, ok := m.(*message.SyncStart); ok && w.sy.Seq != seq0 {
+			w.accepted++
+		}
+	}()
 	if !w.deliver(m) {
 		w.mu.Lock()
 		w.violate("actor-blocked", "Syncer.Receive(%T) did not return within %v: the actor is blocked\n%s", m, vBlockLimit, goroutineDump())
@@ -176,8 +181,23 @@ func (w *vWorld) hashesRsp(o *vOut, kind string) *message.GetHashesRsp {
 			rsp.Hashes, rsp.Count, rsp.Err = nil, 0, errVerifPeer
 		case 1: // too few
 			rsp.Hashes, rsp.Count = hs[:len(hs)-1], uint64(len(hs)-1)
-		case 2: // answer to another question
-			rsp.PrevInfo = &types.BlockInfo{Hash: w.alt[1].BlockHash(), No: req.PrevInfo.No}
+		case 2: // the answer to another question: the same number of hashes, window shifted by one block
+			if prev+1+cnt < len(w.remote) {
+				rsp.PrevInfo = &types.BlockInfo{Hash: w.remote[prev+1].BlockHash(), No: uint64(prev + 1)}
+				hs = nil
+				for i := prev + 2; i <= prev+1+cnt; i++ {
+					hs = append(hs, w.remote[i].BlockHash())
+				}
+			} else if prev >= 1 {
+				rsp.PrevInfo = &types.BlockInfo{Hash: w.remote[prev-1].BlockHash(), No: uint64(prev - 1)}
+				hs = nil
+				for i := prev; i < prev+cnt; i++ {
+					hs = append(hs, w.remote[i].BlockHash())
+				}
+			} else {
+				rsp.PrevInfo = &types.BlockInfo{Hash: w.alt[1].BlockHash(), No: req.PrevInfo.No}
+			}
+			rsp.Hashes, rsp.Count = hs, uint64(len(hs))
 		}
 		w.logf("hashes drop variant %d", v)
 	}
@@ -828,6 +848,11 @@ func runBehaviour(par vParams, b *vBehaviour, seed int64, shortTO time.Duration)
 	}
 	if len(w.viol) == 0 {
 		w.restart()
+	}
+	// every accepted SyncStart is answered by exactly one notification
+	w.drainNotify()
+	if len(w.viol) == 0 && !w.sy.isRunning && len(w.notifs) != w.accepted {
+		w.violate("missing-notification", "%d sessions were accepted but %d result notifications arrived (%v)", w.accepted, len(w.notifs), w.notifs)
 	}
 	// leave nothing behind
 	if w.sy.isRunning {
